@@ -139,6 +139,9 @@ type Stmt struct {
 	Set      []SetItem  `json:"set,omitempty"`
 	Where    *Cond      `json:"where,omitempty"`
 	ViaText  bool       `json:"text,omitempty"`
+	// LitStyle: how integer literals are written in SQL text: 0 plain, 1 one
+	// leading zero ("010" is ten), 2 several leading zeros
+	LitStyle int `json:"lit_style,omitempty"`
 	SQL      string     `json:"sql,omitempty"`
 }
 
